@@ -434,7 +434,11 @@ fn session(ctx: &Ctx, out: &mut Outcome, run_seed: u64, r: &mut Rng) {
     let mut mons: Vec<Box<dyn Monitor>> = vec![
         Box::new(MemoryOracle::new()),
         // reused only for its coverage counters (late duplicates etc.); it decides nothing here
-        Box::new(UnorderedOracle::new("C02", false, false)),
+        Box::new({
+            let mut u = UnorderedOracle::new("C02", false, false);
+            u.decide = false;
+            u
+        }),
         Box::new(CoverageMonitor::new()),
         Box::new(SizeMonitor { prop: "C13" }),
     ];
